@@ -723,7 +723,9 @@ def run_c03(ctx):
     def record(s, kw, tag):
         c = drv_solve.solve_case(s, len(cases), **kw)
         c["tag"] = tag
-        got = tap.take()
+        # (only runs of the loop on THIS system: the recorded component names are those of the case)
+        mine = sorted(x["name"] for x in c["st"]["comps"])
+        got = [r for r in tap.take() if sorted(r["names"]) == mine]
         c["sweeps"] = len(got[-1]["sweeps"]) if got else 0
         c["tap"] = bool(tap.active and got)
         c["sweeps_per_phase"] = [len(r["sweeps"]) for r in got]
@@ -837,7 +839,9 @@ def run_c03(ctx):
         record(_f16_system(), {}, "std")
         # hand-built scenarios and edit histories (harness/scenarios.py): solved under the tap like every other system
         import scenarios
-        for name, s_or_exc, kw in scenarios.build_all() + scenarios.build_histories():
+        built = scenarios.build_all() + scenarios.build_histories()
+        tap.take()         # (the history builders analyse their systems on the way: those runs belong to no case)
+        for name, s_or_exc, kw in built:
             if not isinstance(s_or_exc, Exception):
                 record(s_or_exc, {}, "scenario")
         # (d): overloaded systems must raise or return a physical converged state
